@@ -174,6 +174,29 @@ def fresh_prefix_runs(fresh, settings, triples):
     return total, bad
 
 
+def mixed_key_indices(vals):
+    """corpus entries holding a dict whose keys are of several types (not orderable among each other): always part of the runs with
+    sort_dict_keys=True"""
+    def has(v, depth=0):
+        if depth > 6:
+            return False
+        if isinstance(v, dict):
+            if len({type(k) for k in v}) > 1:
+                return True
+            return any(has(x, depth + 1) for x in v.values())
+        if isinstance(v, (list, tuple)):
+            return any(has(x, depth + 1) for x in v)
+        return False
+    out = []
+    for i, v in enumerate(vals):
+        try:
+            if has(v):
+                out.append(i)
+        except Exception:
+            pass
+    return out
+
+
 def purity_section(tier, seed):
     import corpus_values
     rng = random.Random(seed * 37 + 6)
@@ -184,7 +207,8 @@ def purity_section(tier, seed):
     tot = nt = 0
     idx = list(range(len(vals)))
     for st in settings_list:
-        fresh = fresh_outputs(idx if tier == 'thorough' or st == {} else rng.sample(idx, 16), st)
+        chosen = idx if tier == 'thorough' or st == {} else sorted(set(rng.sample(idx, 16)) | set(mixed_key_indices(vals)))
+        fresh = fresh_outputs(chosen, st)
         if st == {} or tier == 'thorough':
             # first-print effects: every ordered pair from a state in which nothing has been printed yet (in-process permutations
             # below start from whatever the earlier sections and permutations left behind)
